@@ -172,11 +172,83 @@ fn cmd_exec(args: &[String]) {
     }
 }
 
+fn unhex_cps(s: &str) -> Vec<u32> {
+    if s == "-" || s.is_empty() {
+        return vec![];
+    }
+    s.split(',').map(|x| u32::from_str_radix(x, 16).unwrap()).collect()
+}
+fn unhex_bytes(s: &str) -> Vec<u8> {
+    if s == "-" {
+        return vec![];
+    }
+    (0..s.len() / 2).map(|i| u8::from_str_radix(&s[2 * i..2 * i + 2], 16).unwrap()).collect()
+}
+
+/// cases <budget> <file>: explicit cases, one per line: flags TAB pattern-hex-cps TAB hay-hex TAB start|all
+fn cmd_cases(args: &[String]) {
+    let budget: u64 = args[0].parse().unwrap();
+    let text = std::fs::read_to_string(&args[1]).unwrap();
+    let stdout = std::io::stdout();
+    let mut w = std::io::BufWriter::new(stdout.lock());
+    let mut id = 0u64;
+    for line in text.lines() {
+        if line.is_empty() || line.starts_with('#') {
+            continue;
+        }
+        let f: Vec<&str> = line.split('\t').collect();
+        let flags = if f[0] == "-" { "" } else { f[0] };
+        let p = unhex_cps(f[1]);
+        let hb = unhex_bytes(f[2]);
+        let t = match String::from_utf8(hb) {
+            Ok(t) => t,
+            Err(_) => continue,
+        };
+        let asc = t.is_ascii();
+        for no_opt in [false, true] {
+            let mut out = String::new();
+            let ok = if f[3] == "all" {
+                emit_case(&mut out, &format!("{}{}", id, if no_opt { "n" } else { "o" }), &p, flags, no_opt, &[(t.clone(), asc)], budget, true)
+            } else {
+                let start: usize = f[3].parse().unwrap();
+                emit_case_at(&mut out, &format!("{}{}", id, if no_opt { "n" } else { "o" }), &p, flags, no_opt, &t, asc, start, budget)
+            };
+            if ok {
+                w.write_all(out.as_bytes()).unwrap();
+            }
+        }
+        id += 1;
+    }
+}
+
+fn emit_case_at(out: &mut String, id: &str, p: &[u32], f: &str, no_opt: bool, t: &str, ascii_only: bool, start: usize, budget: u64) -> bool {
+    let cr = match panic::catch_unwind(|| compile(p, f, no_opt)) {
+        Ok(Ok(cr)) => cr,
+        Ok(Err(_)) => return false,
+        Err(_) => {
+            writeln!(out, "C {} {} {} {}\nX compile-panic\nE", id, pat_hex(p), if f.is_empty() { "-" } else { f }, no_opt as u8).unwrap();
+            return true;
+        }
+    };
+    writeln!(out, "C {} {} {} {}", id, pat_hex(p), if f.is_empty() { "-" } else { f }, no_opt as u8).unwrap();
+    program_block(&cr, out);
+    let re = Regex::from(cr);
+    writeln!(out, "H {} {}", hex(t.as_bytes()), start).unwrap();
+    let engines: &[Engine] = if ascii_only { &[Engine::Bt8, Engine::Pk8, Engine::BtA, Engine::PkA] } else { &[Engine::Bt8, Engine::Pk8] };
+    for &e in engines {
+        let (st, steps, ms) = run_engine(&re, e, t, start, budget);
+        writeln!(out, "R {} {} {} {}", e.name(), st, steps, matches_tokens(&ms)).unwrap();
+    }
+    writeln!(out, "E").unwrap();
+    true
+}
+
 fn main() {
     panic::set_hook(Box::new(|_| {}));
     let args: Vec<String> = std::env::args().collect();
     match args.get(1).map(|s| s.as_str()) {
         Some("exec") => cmd_exec(&args[2..]),
+        Some("cases") => cmd_cases(&args[2..]),
         _ => {
             eprintln!("usage: rvharness exec <seed> <npatterns> <nhays> <budget> [corpus]");
             std::process::exit(2);
